@@ -11,9 +11,9 @@ cp $DIR/demo.rs $WT/examples/mutdemo.rs
 FEAT=""
 grep -q "num_integer\|num_traits" $DIR/demo.rs && FEAT="--features numtraits"
 grep -q "rand::" $DIR/demo.rs && FEAT="--features rand"
-( cd $WT && cargo run --offline $FEAT --example mutdemo >/tmp/confirm_$$.a 2>&1 ); A=$?
+( cd $WT && cargo run --offline $FEAT --example mutdemo >/tmp/confirm_$$.a 2>&1 && cargo run --offline --release $FEAT --example mutdemo >>/tmp/confirm_$$.a 2>&1 ); A=$?
 ( cd $WT && git apply $DIR/patch.diff ) || { echo "PATCH DOES NOT APPLY"; git -C /repo worktree remove --force $WT; exit 2; }
-( cd $WT && cargo run --offline $FEAT --example mutdemo >/tmp/confirm_$$.b 2>&1 ); B=$?
+( cd $WT && cargo run --offline $FEAT --example mutdemo >/tmp/confirm_$$.b 2>&1 && cargo run --offline --release $FEAT --example mutdemo >>/tmp/confirm_$$.b 2>&1 ); B=$?
 rm -f $WT/examples/mutdemo.rs
 ( cd $WT && cargo test --workspace --no-fail-fast --offline >/tmp/confirm_$$.t 2>&1 ); T=$?
 FAILS=$(grep -c "^test result: FAILED\|test result: FAILED" /tmp/confirm_$$.t)
